@@ -93,7 +93,7 @@ package session
 
 // sessWF: the configuration every constructor establishes (newSession, Opts.validate)
 //@ spec sessWF(s *Session) bool = s != nil && s.Opts != nil && s.Router != nil && s.counter != nil && s.messageStorage != nil && s.unmarshaller != nil && s.LogonSettings != nil && s.eventHandler != nil
-//@   && s.Opts.Tags != nil && s.Opts.SessionErrorCodes != nil
+//@   && s.eventHandler.pool != nil && s.Opts.Tags != nil && s.Opts.SessionErrorCodes != nil
 //@   && s.Opts.MessageBuilders.LogonBuilder != nil && s.Opts.MessageBuilders.LogoutBuilder != nil && s.Opts.MessageBuilders.RejectBuilder != nil
 //@   && s.Opts.MessageBuilders.HeartbeatBuilder != nil && s.Opts.MessageBuilders.TestRequestBuilder != nil && s.Opts.MessageBuilders.ResendRequestBuilder != nil
 // sessInv: logged on only after a transition into SuccessfulLogged
